@@ -2,7 +2,7 @@ import A5.Model.GenericGeo
 import A5.Lemmas.RadialRoundTrip
 import A5.Lemmas.AngularRoundTrip2
 import A5.Lemmas.PolyTies
-import A5.Lemmas.RuntimeTriangles3
+import A5.Lemmas.RuntimeTriangles4
 import Mathlib.Tactic.Ring
 import Mathlib.Tactic.FieldSimp
 import Mathlib.Tactic.LinearCombination
@@ -477,5 +477,26 @@ theorem runtime_roundtrip_twin_mid : ∀ t ∈ SPH_TRIANGLES, ∀ q s : ℝ, 1 /
             (slerpG realKit (toTR (entryA t)) (slerpG realKit (toTR (entryB t)) (toTR (entryC t)) q) s)))
         (slerpG realKit (toTR (entryA t)) (slerpG realKit (toTR (entryB t)) (toTR (entryC t)) q) s)) ≤ 5e-16 :=
   A5.RuntimeTriangles.runtime_roundtrip_twin_mid
+
+open A5.RuntimeTriangles A5.RadialRoundTrip A5.AngularRoundTrip A5.Gen.Runtime A5.GP A5.PolyTies in
+/-- **T14.** T13 with the no-snap conditions DISCHARGED: for every triangle of the table, every `q` in `[1e-4, 1 - 1e-4]` and
+every `s` in `[2e-14, 1]` the generic twins of the code's forward and inverse (vertex snapping, two-branch `safe_acos`, both area
+branches) round-trip within 5e-16 - no hypothesis about the point besides the two ranges.  (Below `s` ~ 1e-14 the code snaps to
+the apex; within 1e-4 of the ends of the far edge the sub-triangle area may be on the other branch of `get_triangle_area`.)
+Ingredients proved for this: additivity of the code's area function along the edge (`area_additive`), `3/5 s ≤ h ≤ 1` for the
+radial coordinate, a kernel-checked bound on the regenerated snap constant. -/
+theorem runtime_roundtrip_twin_interior : ∀ t ∈ SPH_TRIANGLES, ∀ q s : ℝ, 1 / 10 ^ 4 ≤ q → q ≤ 1 - 1 / 10 ^ 4 →
+    2 / 10 ^ 14 ≤ s → s ≤ 1 →
+    dotG (inverseBaryG realKit (toTR (entryA t)) (toTR (entryB t)) (toTR (entryC t))
+          (forwardBaryG realKit (toTR (entryA t)) (toTR (entryB t)) (toTR (entryC t))
+            (slerpG realKit (toTR (entryA t)) (slerpG realKit (toTR (entryB t)) (toTR (entryC t)) q) s)))
+        (inverseBaryG realKit (toTR (entryA t)) (toTR (entryB t)) (toTR (entryC t))
+          (forwardBaryG realKit (toTR (entryA t)) (toTR (entryB t)) (toTR (entryC t))
+            (slerpG realKit (toTR (entryA t)) (slerpG realKit (toTR (entryB t)) (toTR (entryC t)) q) s))) = 1 ∧
+    lengthG realKit (subG (inverseBaryG realKit (toTR (entryA t)) (toTR (entryB t)) (toTR (entryC t))
+          (forwardBaryG realKit (toTR (entryA t)) (toTR (entryB t)) (toTR (entryC t))
+            (slerpG realKit (toTR (entryA t)) (slerpG realKit (toTR (entryB t)) (toTR (entryC t)) q) s)))
+        (slerpG realKit (toTR (entryA t)) (slerpG realKit (toTR (entryB t)) (toTR (entryC t)) q) s)) ≤ 5e-16 :=
+  A5.RuntimeTriangles.runtime_roundtrip_twin_interior
 
 end A5.C15
